@@ -23,7 +23,7 @@ LEVEL = "exploration"
 tiers = {
     "quick": {"runs": 3000, "chunk": 60, "wall_cap_s": 2400, "determinism_samples": 8,
               "max_minimise": 4, "minimise_budget_s": 40, "chunkings": 8},
-    "thorough": {"runs": 40000, "chunk": 200, "wall_cap_s": 3300, "determinism_samples": 30,
+    "thorough": {"runs": 40000, "chunk": 200, "wall_cap_s": 7200, "determinism_samples": 30,
                  "max_minimise": 6, "minimise_budget_s": 120, "chunkings": 24},
 }
 
